@@ -85,7 +85,7 @@ CHECKS = {
              'implementation\'s model must define the same joint distribution, compared through E[(-1)^(s.x)] on all unit vectors, '
              'pairs and random vectors (exact to 1e-7; with approximate_disjoint_errors within the first-order bound 2*P^2 per '
              'approximated channel); rejections (non-deterministic detector/observable, channels needing the approximation, '
-             'over-mixing) must match the specification; options fold_loops / allow_gauge_detectors / approximate_disjoint_errors. Rejection clause: a non-deterministic observable (also one sharing its anticommuting set with a gauge detector) must be refused whether or not gauge detectors are allowed. The probability folding of add_error is translated to Q and proved equal to the merge rule by ring (GenProofs_AddError); MPP / SPP entry points of the backward classes are tied from source and MppRev proves the reversed target list is the reversed products with the same content. RevTrack: along whole runs (any number of Clifford steps and Hermitian measurements) the flip parity of a detector under a Pauli error E is [E, sensitivity] for every frame randomisation when the tracker\'s anticommutation check passes (fparz_is_acom), and such detectors whose start sensitivity commutes with the initial group are deterministic over all legal runs (detector_deterministic, via frame completeness). RevProg extends this to adaptive programs (feedback toggling record flags, resets, sweep and fault bits): detector_in_every_shot - in every legal shot a checked detector equals the reference value xor the parity of the faults whose Pauli anticommutes with its back-propagated sensitivity (the content of a detector error model, to all orders).',
+             'over-mixing) must match the specification; options fold_loops / allow_gauge_detectors / approximate_disjoint_errors. Rejection clause: a non-deterministic observable (also one sharing its anticommuting set with a gauge detector) must be refused whether or not gauge detectors are allowed. The probability folding of add_error is translated to Q and proved equal to the merge rule by ring (GenProofs_AddError); MPP / SPP entry points of the backward classes are tied from source and MppRev proves the reversed target list is the reversed products with the same content. RevTrack: along whole runs (any number of Clifford steps and Hermitian measurements) the flip parity of a detector under a Pauli error E is [E, sensitivity] for every frame randomisation when the tracker\'s anticommutation check passes (fparz_is_acom), and such detectors whose start sensitivity commutes with the initial group are deterministic over all legal runs (detector_deterministic, via frame completeness). RevProg extends this to adaptive programs (feedback toggling record flags, resets, sweep and fault bits): detector_in_every_shot - in every legal shot a checked detector equals the reference value xor the parity of the faults whose Pauli anticommutes with its back-propagated sensitivity (the content of a detector error model, to all orders). DemBridge.circuit_shot_is_dem_shot: the model DEM read off by the tracker (error j = detectors anticommuting with fault j) sampled with the shot\'s fault bits gives, detector by detector, the circuit\'s detection events (C03 meets C16).',
         note=TB + ' The analyzer\'s bookkeeping (add_error_combinations, gauge removal, unreversed) is not modelled in Coq; pair and product measurements enter the '
                   'adjointness theorem only through their decomposition. Distribution equality is '
                   'a randomized identity test over test vectors.',
